@@ -21,7 +21,14 @@ package objectdeployments
 
 //@ func package-operator.run/internal/controllers/objectdeployments.(*archiveReconciler).ensurePaused
 //@   ensures result0 ==> statusPaused(objectset)
+//@   ensures [C08] gomem_unchanged(alloc(objectset, "Str"))
 //@   sink Client.Update#1 requires [C08] !statusPaused(objectset)
+
+// the candidates are collected in a list of their own: the revision lists handed in (which history pruning walks
+// afterwards, oldest first) are not written
+//@ func package-operator.run/internal/controllers/objectdeployments.(*archiveReconciler).archiveAllLaterRevisions
+//@   ensures [C08] gomem_unchanged(class("Str"))
+//@   loop 1 invariant [C08] 0 <= idx && gomem_unchanged(class("Str")) && (cap(res) == 0 || (fresh(sarr(res)) && allocated(sarr(res))))
 
 //@ func package-operator.run/internal/controllers/objectdeployments.(*archiveReconciler).markObjectSetsForArchival
 //@   sink Client.Update#1 requires [C08] statusPaused(objectSet)
